@@ -13,7 +13,7 @@ seeds="$@"; [ -z "$seeds" ] && seeds=$(ls seeded | grep -E '^C[0-9]+-[ab]$')
 out="$HERE/matrix_results.jsonl"
 for s in $seeds; do
   ( cd "$R" && git apply "$HERE/seeded/$s/patch.diff" ) || { echo "{\"seed\":\"$s\",\"error\":\"patch does not apply\"}" >> "$out"; continue; }
-  for id in C01 C02 C03 C04 C05 C06 C07 C08 C09 C10 C11 C12 C13 C14 C15 C16 C17; do
+  for id in ${MATRIX_CHECKS:-C01 C02 C03 C04 C05 C06 C07 C08 C09 C10 C11 C12 C13 C14 C15 C16 C17}; do
     t0=$(date +%s)
     o=$(./check $id quick 2>&1); rc=$?
     nv=$(echo "$o" | grep -c '^VIOLATION')
